@@ -62,7 +62,7 @@ def validate_gc(traces, v):
 def lang_corpus(rnd, n):
     out = []
     for i in range(n):
-        c = i % 8
+        c = i % 9
         if c == 0:
             ast, _ = gen.program_c01(rnd)
         elif c == 1:
@@ -77,6 +77,8 @@ def lang_corpus(rnd, n):
             ast = gen.program_c11(rnd)       # natives with temporaries and callbacks, errors crossing natives
         elif c == 6:
             ast = gen.program_c18(rnd)       # errors in flight, back traces
+        elif c == 7:
+            ast = gen.program_c17(rnd)       # module loading: sources, module objects and import fibers
         else:
             ast = string_program(rnd)
         out.append((f"p{i}", ast))
@@ -163,7 +165,7 @@ def run(pid, tier, replay=None):
             rec = lang.multi_case_record(cid, ast["main"], ast["mods"])
             rec["files"] = {"main.lay": lang.to_source(ast["main"])[0]}
             for name, a in ast["mods"].items():
-                rec["files"][name + ".lay"] = lang.to_source(a)[0]
+                rec["files"][name + ".lay"] = a if isinstance(a, str) else lang.to_source(a)[0]
             rec["src"] = rec["files"]["main.lay"]
         else:
             rec = lang.case_record(cid, ast)
